@@ -244,8 +244,9 @@ impl NtpDuration {
 
     /// Interval of same length, but positive direction
     pub const fn abs(self) -> Self {
+        // Saturate like the other duration operators: |i64::MIN| does not exist
         Self {
-            duration: self.duration.abs(),
+            duration: self.duration.saturating_abs(),
         }
     }
 
